@@ -15,8 +15,8 @@ RULE = ("every type of the executor universe (reference unit, none, single-unit,
 
 
 def plan(env, tier, seed):
-    n = 8 if tier == "quick" else 200
-    nk = 4 if tier == "quick" else 12
+    n = 24 if tier == "quick" else 4000
+    nk = 4 if tier == "quick" else 16
     tasks = cl.split_tasks(env, lambda ty, e: True)
     for t in tasks:
         t.update({"n": n, "nk": nk, "seed": seed})
